@@ -305,6 +305,16 @@ func Gen(prop, tier string, seed uint64) *kernel.Plan {
 				evs = append(evs, Ev{T: "sync", A: a})
 			}
 		}
+		if prop == "C17" && g.Chance(1, 20) {
+			// a creating commit is interrupted after its operations were stored, and the collection is reset
+			// before the creator retries
+			k := fmt.Sprintf("kx%d", i)
+			evs = append(evs, Ev{T: "open", A: a, K: k, Kind: kinds[g.Intn(4)], Mode: "create"}, c.localEv(a),
+				Ev{T: "sync", A: a, MF: []MongoFault{{At: g.Range(7, 9), Kind: []string{"errBefore", "errAfter"}[g.Intn(2)]}}})
+			for x := 0; x < 3; x++ {
+				evs = append(evs, Ev{T: "reset", A: x})
+			}
+		}
 		if prop == "C18" && g.Chance(1, 3) {
 			grp := Ev{T: "group", S: g.U64() % 100000}
 			for k := g.Range(2, 4); k > 0; k-- {
